@@ -325,7 +325,20 @@ class History:
 
     def op_option(self):
         om = self.scn.option_manager
-        a = self.rng.choice(OPTION_ATTRS + ["victory_years"])
+        a = self.rng.choice(OPTION_ATTRS + ["victory_years", "secondary_game_modes", "villager_force_drop", "lock_coop_alliances"])
+        if a in ("secondary_game_modes", "villager_force_drop", "lock_coop_alliances"):
+            # attributes only some versions have: skipped where the version refuses them (C15's subject)
+            v = self.rng.choice([0, 1, 5, 15, 17, 2 ** 31, 4294967295]) if a == "secondary_game_modes" else bool(self.rng.randint(0, 1))
+            try:
+                if getattr(om, a) is None:
+                    return
+                setattr(om, a, v)
+            except Exception as e:
+                if type(e).__name__ == "UnsupportedAttributeError":
+                    return
+                raise
+            self._rec("set_option", a, v)
+            return
         if a == "victory_condition":
             v = self.rng.choice([0, 1, 2, 3, 4, 6])
         elif a == "victory_score":
@@ -349,6 +362,29 @@ class History:
     def step(self):
         ops = [o for o, w in self.OPS for _ in range(w) if self.allow_components or o not in ("op_add_effect", "op_add_condition", "op_remove_component")]
         getattr(self, self.rng.choice(ops))()
+
+
+def small_bases(version, base, tmp, quiet):
+    """the small (4x4 map) start files of the histories: the version's base file and, where the structure has blocks gated by
+    the trigger version (v1.54: `redacted` exists from 4.0 on, the shipped default is 3.9), the same file at trigger version 4.0"""
+    import os
+    from AoE2ScenarioParser.scenarios.aoe2_de_scenario import AoE2DEScenario
+    out = []
+    with quiet():
+        s0 = AoE2DEScenario.from_file(base)
+        s0.map_manager.map_size = 4
+        fn = os.path.join(tmp, "small.aoe2scenario")
+        s0.write_to_file(fn)
+        out.append(fn)
+        t = s0.sections["Triggers"]
+        if "redacted" in t.retriever_map and float(t.trigger_version) <= 3.9:
+            t.trigger_version = 4.0
+            t.redacted = bytes(16)
+            fn2 = os.path.join(tmp, "small_tv40.aoe2scenario")
+            s0.write_to_file(fn2)
+            AoE2DEScenario.from_file(fn2)          # must be loadable, else it is no start file
+            out.append(fn2)
+    return out
 
 
 # ---- observable manager state ----------------------------------------------------------------------
